@@ -58,6 +58,9 @@ def known_witnesses(run, d, quiet=False):
     for p in sorted(glob.glob(os.path.join(env.VERIF, "corpus", "treedist", "known_*.json"))):
         w = json.load(open(p, encoding="utf8"))
         sig, case = w["signature"], OBJ.from_json(w["case"])
+        if w.get("only_if_listed") and not any(e.get("signature") == sig for e in report.known_findings(PROP)):
+            out[sig] = "not listed: this name class stays outside the distance clauses (notes/design/C15.md)"
+            continue
         saved = (OBJ.lift_q, OBJ.lift_s, OBJ.lift_b)
         OBJ.lift_q, OBJ.lift_s, OBJ.lift_b = w["lifts"]["lift_q"], w["lifts"]["lift_s"], w["lifts"]["lift_b"]
         try:
@@ -73,9 +76,7 @@ def known_witnesses(run, d, quiet=False):
             out[sig] = "no longer fails: name class checked like any other"
             if sig == "quoted-name-position":
                 OBJ.lift_q = True
-            elif sig == "structural-char-in-name":
-                OBJ.lift_s = True
-            else:
+            elif sig == "blank-name-roundtrip":
                 OBJ.lift_b = True
         elif recorded and sig in entries:
             out[sig] = "still fails as recorded"
@@ -89,8 +90,7 @@ def known_witnesses(run, d, quiet=False):
                            "and is not listed in known_findings.json with status 'known' (or fails in another way than "
                            "recorded)", "what": w["what"], "code": code, "failed": [OBJ.BITS.get(k, k) for k in bits],
                            "case": OBJ.jsonable(case, res)}, no_input=False)
-    if OBJ.lift_s and not OBJ.lift_q:
-        OBJ.lift_s = False          # scanner characters are quoted names too
+    OBJ.lift_s = False              # names with , : ; ( ) never enter the distance clauses of the generated streams
     run.coverage["known_witnesses"] = out
 
 
